@@ -69,6 +69,23 @@ func Commit(db objects.Store, rs ref.Store, id uuid.UUID) (commits map[string]*o
 	}
 	commits = map[string]*objects.Commit{}
 	buf := bytes.NewBuffer(nil)
+	// every staged commit must be readable, and writable once its message carries the transaction
+	// prefix, before any branch is moved: a commit that cannot be rewritten would stop the loop
+	// below half-way on every run, leaving the transaction neither committed nor committable
+	for branch, sum := range m {
+		if _, ok := applied[ref.HeadRef(branch)]; ok {
+			continue
+		}
+		com, err := objects.GetCommit(db, sum)
+		if err != nil {
+			return nil, err
+		}
+		com.Message = fmt.Sprintf("commit [tx/%s]\n%s", id, com.Message)
+		buf.Reset()
+		if _, err = com.WriteTo(buf); err != nil {
+			return nil, err
+		}
+	}
 	for branch, sum := range m {
 		if _, ok := applied[ref.HeadRef(branch)]; ok {
 			continue
